@@ -55,7 +55,9 @@ def r_df_columns(ctx):
             shape = col is not None and col[0] == "list" and len(col[1]) == 1 and col[1][0][0] == "each" and len(col[1][0][1]) == 1 \
                 and not col[1][0][2]
             ok = False
-            if shape and norm(col[1][0][1][0][3]) == S("self.tasks"):
+            if attr is None and col is not None and norm_iter(norm(col)) == S("self.tasks") and col[0] == "call":
+                ok = True       # list(self.tasks) / list(self.tasks.keys()): the keys of the task dict, one row per task
+            elif shape and norm(col[1][0][1][0][3]) == S("self.tasks"):
                 # one row per key of the task dict
                 e = ("elem", col[1][0][1][0])
                 want = e if attr is None else A(("idx", S("self.tasks"), e), attr)
@@ -227,7 +229,15 @@ def r_smt_same_handle(ctx):
                 else:
                     ctx.ok("R-ATTR", f"{where}: {ev.data['name']}() exists on {classes}")
             # the text written IS the serialisation, not something computed from it (a filtered or truncated text is another system)
-            used = any(norm(w.data["args"][0]) == norm(("mcall", ev.data["recv"], ev.data["name"], ev.data["args"], ev.data["kwargs"]))
+            def leaves(t):
+                return leaves(t[2]) + leaves(t[3]) if isinstance(t, tuple) and t and t[0] == "phi" and len(t) == 4 else [norm(t)]
+
+            def is_ser(t):
+                return isinstance(t, tuple) and len(t) == 5 and t[0] == "mcall" and t[1] == A(SELF, "_solver") and t[2] in ("to_smt2", "sexpr") \
+                    and not t[3] and not t[4]
+            this = norm(("mcall", ev.data["recv"], ev.data["name"], ev.data["args"], ev.data["kwargs"]))
+            # (a conditional between the serialisations of the same handle - one per class it can hold - is still the serialisation)
+            used = any(this in leaves(w.data["args"][0]) and all(is_ser(x) for x in leaves(w.data["args"][0]))
                        for w in writes if w.data["args"])
             if used:
                 ctx.ok("R-SMT-SAME-HANDLE", f"{where} [{describe_config(run)[:60]}]: the text written is the serialisation of self._solver")
